@@ -186,6 +186,17 @@ def run_case(spec):
             ticks = [e[0] for e in events]
             if any(b - a < 1 for a, b in zip(ticks, ticks[1:])):
                 P("C15:events-too-close", f"event ticks {ticks[:10]}")
+            if t <= 100000 and not out.problems:
+                # the same parameters through the simulator's own entry (run_simulator builds the generator itself): a scheduler
+                # that only watches must see the same pipelines in the same ticks
+                from verif.checks.c13 import spy_run, fingerprint
+                out.label("also_via_run_simulator")
+                seen = spy_run({**params, "duration": (t + 0.5) / tps})
+                direct = [(tk, fingerprint(p)) for tk, ps in events for p in ps]
+                if seen != direct:
+                    k = next((i for i, (a, b) in enumerate(zip(seen, direct)) if a != b), min(len(seen), len(direct)))
+                    P("C15:run-simulator-generates-differently", f"run_simulator(params) delivered {len(seen)} pipelines in {t} ticks, the generator built directly "
+                      f"from the same parameters {len(direct)}; first difference at #{k}: tick {seen[k][0] if k < len(seen) else None} vs {direct[k][0] if k < len(direct) else None}")
         elif mode == "freq":
             npp = params["num_pipelines"]
             events, t = run_events(params, math.ceil(2000 / npp), 10 ** 7, P)
